@@ -1315,7 +1315,12 @@ pub fn group_files(config: &GroupConfig, log: &dyn Log) -> Result<Vec<FileGroup<
             if !ctx.config.skip_content_hash {
                 group_by_contents(&ctx, prefix_len, suffix_groups)
             } else {
+                // the suffix stage applies only the permissive filter; this is the last stage,
+                // so the strict one (e.g. --unique, --rf-under) must be applied here
                 suffix_groups
+                    .into_iter()
+                    .filter(|g| g.matches_strictly(&ctx.group_filter))
+                    .collect()
             }
         }
     };
